@@ -4,8 +4,9 @@
   (the oracle stands for the randomised redial delays read back from the trace).
 -/
 import NngModel.Proofs.LifeStep
+import NngModel.Proofs.LifeGlobalStep
 namespace Nng.C14
-open Nng.Life Nng.LifeModel
+open Nng.Life Nng.LifeModel Nng.Generated
 
 /-- every pipe of every reachable state satisfies the notification invariants -/
 theorem reachable_pipe_inv (tr : List (LOp × List Nat)) (p : Pipe) (hp : p ∈ (run {} tr).pipes) : PipeInv p :=
@@ -90,6 +91,228 @@ theorem timer_never_overdue (now : Nat) (orc : List Nat) (e : Ep) (hd : e.dialer
     simp at hf
     omega
 
+/-! ### cross-object invariants: one pipe per dialer, redial, accept (all histories, all oracles) -/
+
+/-- every reachable state satisfies the global invariant (`Proofs/LifeGlobal*.lean`): indices are
+    positions, endpoint state machine, `dPipe` ↔ the one live pipe, liveness, nothing overdue -/
+theorem reachable_global_inv (tr : List (LOp × List Nat)) : Inv (run {} tr) := run_Inv tr {} init_Inv
+
+/-- pipe and endpoint numbers identify their objects -/
+theorem indices_unique (tr : List (LOp × List Nat)) :
+    (∀ p ∈ (run {} tr).pipes, ∀ q ∈ (run {} tr).pipes, p.idx = q.idx → p = q) ∧
+    (∀ e ∈ (run {} tr).eps, ∀ f ∈ (run {} tr).eps, e.idx = f.idx → e = f) :=
+  ⟨fun _ hp _ hq h => (reachable_global_inv tr).g.s.w.idxP.unique hp hq h,
+   fun _ he _ hf h => (reachable_global_inv tr).g.s.w.idxE.unique he hf h⟩
+
+/-- "A dialer owns at most one pipe at a time": in every reachable state two live (not reaped) pipes
+    of the same dialer are the same pipe; `dPipe = some i` iff pipe `i` is that live pipe; and while
+    `dPipe` is set the dialer has neither a connect armed nor a redial timer pending, and is open -/
+theorem dialer_owns_at_most_one_pipe (tr : List (LOp × List Nat)) (e : Ep) (he : e ∈ (run {} tr).eps)
+    (hd : e.dialer = true) :
+    (∀ p ∈ (run {} tr).pipes, ∀ q ∈ (run {} tr).pipes, p.reaped = false → q.reaped = false →
+        p.ep = e.idx → q.ep = e.idx → p = q) ∧
+    (∀ i, e.dPipe = some i ↔ ∃ p ∈ (run {} tr).pipes, p.idx = i ∧ p.reaped = false ∧ p.ep = e.idx) ∧
+    (∀ i, e.dPipe = some i → e.armed = false ∧ e.timer = none ∧ e.closed = false) := by
+  have inv := reachable_global_inv tr
+  have w := inv.g.s.w
+  refine ⟨?_, ?_, ?_⟩
+  · intro p hp q hq hpl hql hpe hqe
+    have h1 := (w.own p hp hpl e he hpe.symm).2 hd
+    have h2 := (w.own q hq hql e he hqe.symm).2 hd
+    rw [h1] at h2
+    exact w.idxP.unique hp hq (Option.some.inj h2)
+  · intro i
+    constructor
+    · exact w.has e he i
+    · rintro ⟨p, hp, hi, hl, hpe⟩
+      rw [← hi]; exact (w.own p hp hl e he hpe.symm).2 hd
+  · intro i hi
+    have hu := (w.epInv e he).1.dpipe_unarmed hi
+    obtain ⟨p, hp, _, hl, hpe⟩ := w.has e he i hi
+    exact ⟨hu.1, hu.2, inv.g.s.pipesOpen p hp hl e he hpe.symm⟩
+
+/-- a listener never records a pipe as its own, a live pipe's endpoint exists, is open and belongs
+    to the pipe's socket -/
+theorem live_pipe_has_open_endpoint (tr : List (LOp × List Nat)) (p : Pipe) (hp : p ∈ (run {} tr).pipes)
+    (hl : p.reaped = false) :
+    ∃ e ∈ (run {} tr).eps, e.idx = p.ep ∧ e.sock = p.sock ∧ e.closed = false ∧ (e.dialer = true → e.dPipe = some p.idx) := by
+  have inv := reachable_global_inv tr
+  obtain ⟨e, he, hi⟩ := inv.g.s.w.idxE.exists (inv.g.s.w.pipeEp p hp)
+  have := inv.g.s.w.own p hp hl e he hi
+  exact ⟨e, he, hi, this.1, inv.g.s.pipesOpen p hp hl e he hi, this.2⟩
+
+/-- "A background dialer never gets stuck": in every reachable state every open dialer that redials by
+    itself (non-blocking start, or connected once) and was not told to stop by the transport (a
+    close-class connect result ECLOSED / ECANCELED / ESTOPPED on a still open dialer — the ghost flag
+    `stopped`) is in exactly one of the states: connect armed / redial timer pending / owns a live pipe -/
+theorem background_dialer_never_stuck (tr : List (LOp × List Nat)) (e : Ep) (he : e ∈ (run {} tr).eps)
+    (hd : e.dialer = true) (hc : e.closed = false) (hb : e.background = true) (hs : e.stopped = false) :
+    (e.armed = true ∧ e.timer = none ∧ e.dPipe = none) ∨
+    (e.armed = false ∧ e.timer.isSome = true ∧ e.dPipe = none) ∨
+    (e.armed = false ∧ e.timer = none ∧ e.dPipe.isSome = true) := by
+  have inv := reachable_global_inv tr
+  have hi := (inv.g.s.w.epInv e he).1
+  rcases (inv.g.live e he).1 hd hc hb hs with ha | ht | hp
+  · have := hi.armed_excl ha
+    exact Or.inl ⟨ha, this.1, this.2.1⟩
+  · obtain ⟨t, ht'⟩ := Option.isSome_iff_exists.mp ht
+    exact Or.inr (Or.inl ⟨hi.timer_unarmed ht', ht, (hi.timer_excl t ht').1⟩)
+  · obtain ⟨i, hp'⟩ := Option.isSome_iff_exists.mp hp
+    have := hi.dpipe_unarmed hp'
+    exact Or.inr (Or.inr ⟨this.1, this.2, hp⟩)
+
+/-- a pending redial timer belongs to an open dialer without a pipe, was armed in the past, its
+    back-off is at most the largest reconnect time ever configured for the dialer, and it is not
+    overdue: it fires strictly before `t0 + max b 1` (the redial delay is < the bound) -/
+theorem redial_timer_bounded (tr : List (LOp × List Nat)) (e : Ep) (he : e ∈ (run {} tr).eps) (t0 : Nat) (b : Int)
+    (ht : e.timer = some (t0, b)) :
+    e.dialer = true ∧ e.closed = false ∧ e.armed = false ∧ e.dPipe = none ∧ t0 ≤ (run {} tr).now ∧ b ≤ e.cap ∧
+    ((run {} tr).now : Int) + 1 < t0 + max b 1 := by
+  have inv := reachable_global_inv tr
+  have hi := (inv.g.s.w.epInv e he).1
+  have h1 := hi.timer_excl _ ht
+  exact ⟨h1.2, hi.timer_open ht, hi.timer_unarmed ht, h1.1, (inv.g.s.w.epInv e he).2.1 t0 b ht, hi.timer_cap t0 b ht,
+    (inv.fresh e he).1 t0 b ht⟩
+
+/-- progress: with the redial timer pending, advancing virtual time by the back-off (hence by the largest
+    reconnect time ever configured) re-arms the connect, whatever the oracle says -/
+theorem redial_progress (tr : List (LOp × List Nat)) (hu : (run {} tr).unmodelled = false) (e : Ep)
+    (he : e ∈ (run {} tr).eps) (t0 : Nat) (b : Int) (ht : e.timer = some (t0, b)) (ms : Nat) (hms : b ≤ ms)
+    (orc : List Nat) :
+    ∀ e' ∈ (step (run {} tr) (.advance ms) orc).1.eps, e'.idx = e.idx → e'.armed = true ∧ e'.timer = none := by
+  have inv := reachable_global_inv tr
+  have hb := redial_timer_bounded tr e he t0 b ht
+  intro e' he' hi
+  unfold step at he'
+  simp only [hu, Bool.false_eq_true, if_false, LifeModel.apply, fireTimers] at he'
+  rcases List.mem_map.mp he' with ⟨x, hx, rfl⟩
+  have hxi : x.idx = e.idx := by rw [← hi]; exact ((fireOne_frame _ _ x).1).symm
+  have : x = e := inv.g.s.w.idxE.unique hx he hxi
+  subst this
+  have hf : timerFires ((run {} tr).now + ms) (orc.contains x.idx) x = true := by
+    unfold timerFires
+    rw [ht]
+    have := hb.2.2.2.2.1
+    simp only [Bool.or_eq_true, decide_eq_true_eq]
+    right
+    omega
+  unfold fireOne
+  simp only [hb.1, hf, if_true]
+  exact ⟨trivial, trivial⟩
+
+theorem redial_progress_cap (tr : List (LOp × List Nat)) (hu : (run {} tr).unmodelled = false) (e : Ep)
+    (he : e ∈ (run {} tr).eps) (ht : e.timer.isSome = true) (ms : Nat) (hms : e.cap ≤ ms) (orc : List Nat) :
+    ∀ e' ∈ (step (run {} tr) (.advance ms) orc).1.eps, e'.idx = e.idx → e'.armed = true ∧ e'.timer = none := by
+  obtain ⟨⟨t0, b⟩, ht'⟩ := Option.isSome_iff_exists.mp ht
+  have := (redial_timer_bounded tr e he t0 b ht').2.2.2.2.2.1
+  exact redial_progress tr hu e he t0 b ht' ms (by omega) orc
+
+/-- "A listener keeps accepting": in every reachable state every open listener that was not told to stop
+    by the transport (close-class accept result on a still open listener) has its accept armed, or is in
+    the cool-down the code takes after the other error classes — which ends within `lifeAcceptCooldownMs` -/
+theorem listener_keeps_accepting (tr : List (LOp × List Nat)) (e : Ep) (he : e ∈ (run {} tr).eps)
+    (hd : e.dialer = false) (hc : e.closed = false) (hs : e.stopped = false) :
+    (e.armed = true ∧ e.cool = none) ∨
+    (e.armed = false ∧ ∃ d, e.cool = some d ∧ (run {} tr).now < d ∧ d ≤ (run {} tr).now + lifeAcceptCooldownMs) := by
+  have inv := reachable_global_inv tr
+  have hi := (inv.g.s.w.epInv e he).1
+  rcases (inv.g.live e he).2 hd hc hs with ha | hco
+  · exact Or.inl ⟨ha, (hi.armed_excl ha).2.2⟩
+  · obtain ⟨d, hd'⟩ := Option.isSome_iff_exists.mp hco
+    refine Or.inr ⟨?_, d, hd', (inv.fresh e he).2 d hd', (inv.g.s.w.epInv e he).2.2 d hd'⟩
+    cases ha : e.armed with
+    | false => rfl
+    | true => have := (hi.armed_excl ha).2.2; rw [hd'] at this; cases this
+
+/-- progress: after the cool-down time has passed the accept is armed again -/
+theorem accept_progress (tr : List (LOp × List Nat)) (hu : (run {} tr).unmodelled = false) (e : Ep)
+    (he : e ∈ (run {} tr).eps) (d : Nat) (hco : e.cool = some d) (ms : Nat) (hms : lifeAcceptCooldownMs ≤ ms)
+    (orc : List Nat) :
+    ∀ e' ∈ (step (run {} tr) (.advance ms) orc).1.eps, e'.idx = e.idx → e'.armed = true ∧ e'.cool = none := by
+  have inv := reachable_global_inv tr
+  have hi := (inv.g.s.w.epInv e he).1
+  have hdl := hi.cool_listener d hco
+  have hle := (inv.g.s.w.epInv e he).2.2 d hco
+  intro e' he' hi'
+  unfold step at he'
+  simp only [hu, Bool.false_eq_true, if_false, LifeModel.apply, fireTimers] at he'
+  rcases List.mem_map.mp he' with ⟨x, hx, rfl⟩
+  have hxi : x.idx = e.idx := by rw [← hi']; exact ((fireOne_frame _ _ x).1).symm
+  have : x = e := inv.g.s.w.idxE.unique hx he hxi
+  subst this
+  unfold fireOne
+  have hge : (run {} tr).now + ms ≥ d := by omega
+  simp only [hdl, Bool.false_eq_true, if_false, hco, hge, if_true]
+  exact ⟨trivial, trivial⟩
+
+/-- an endpoint that is closed does nothing any more -/
+theorem closed_endpoint_idle (tr : List (LOp × List Nat)) (e : Ep) (he : e ∈ (run {} tr).eps) (hc : e.closed = true) :
+    e.armed = false ∧ e.timer = none ∧ e.cool = none ∧ e.userAio = false ∧ e.dPipe = none ∧
+    ∀ p ∈ (run {} tr).pipes, p.ep = e.idx → p.reaped = true := by
+  have inv := reachable_global_inv tr
+  have h1 := (inv.g.s.w.epInv e he).1.closed_idle hc
+  refine ⟨h1.1, h1.2.1, h1.2.2.1, h1.2.2.2, ?_, ?_⟩
+  · cases hd : e.dPipe with
+    | none => rfl
+    | some i =>
+      obtain ⟨p, hp, _, hl, hpe⟩ := inv.g.s.w.has e he i hd
+      have := inv.g.s.pipesOpen p hp hl e he hpe.symm
+      rw [hc] at this; cases this
+  · intro p hp hpe
+    cases hl : p.reaped with
+    | true => rfl
+    | false =>
+      have := inv.g.s.pipesOpen p hp hl e he hpe.symm
+      rw [hc] at this; cases this
+
+/-- "after its pipe is lost ... the timer is pending with delay < the bound": in any reachable state, when
+    the application closes (`pipeClose`) or the transport drops (`pipeDrop`) the pipe a dialer owns, then
+    after that step the dialer has no pipe and either its connect is armed again already or its redial timer
+    is pending, started at this instant with back-off `curr ≤ cap` (by `redial_timer_bounded` it fires
+    strictly before `now + max curr 1`) -/
+theorem redial_after_pipe_loss (tr : List (LOp × List Nat)) (hu : (run {} tr).unmodelled = false) (e : Ep)
+    (he : e ∈ (run {} tr).eps) (hd : e.dialer = true) (i : Nat) (hp : e.dPipe = some i) (op : LOp)
+    (hop : op = .pipeDrop i ∨ op = .pipeClose i) (orc : List Nat) :
+    e.curr ≤ e.cap ∧ ∀ e' ∈ (step (run {} tr) op orc).1.eps, e'.idx = e.idx →
+      e'.dPipe = none ∧
+      ((e'.armed = true ∧ e'.timer = none) ∨ (e'.armed = false ∧ e'.timer = some ((run {} tr).now, e.curr))) :=
+  ⟨((reachable_global_inv tr).g.s.w.epInv e he).1.caps.1,
+   pipe_loss_step _ (reachable_global_inv tr) hu e he hd i hp op hop orc⟩
+
+/-- "... or a dial fails": a connect of a background dialer (no blocking start waiting) that fails with any
+    result other than the close-class ones starts the redial timer in the same way -/
+theorem redial_after_failed_dial (tr : List (LOp × List Nat)) (hu : (run {} tr).unmodelled = false) (e : Ep)
+    (he : e ∈ (run {} tr).eps) (hd : e.dialer = true) (ha : e.armed = true) (hua : e.userAio = false) (rv : Nat)
+    (hrv : lifeDialStopErrs.contains rv = false) (orc : List Nat) :
+    e.curr ≤ e.cap ∧ ∀ e' ∈ (step (run {} tr) (.connDone e.idx (.error rv)) orc).1.eps, e'.idx = e.idx →
+      e'.dPipe = none ∧
+      ((e'.armed = true ∧ e'.timer = none) ∨ (e'.armed = false ∧ e'.timer = some ((run {} tr).now, e.curr))) :=
+  ⟨((reachable_global_inv tr).g.s.w.epInv e he).1.caps.1,
+   dial_failure_step _ (reachable_global_inv tr) hu e he hd ha hua rv hrv orc⟩
+
+/-- the hypothesis `stopped = false` of `background_dialer_never_stuck` / `listener_keeps_accepting` is
+    necessary: a close-class connect / accept result (here NNG_ECLOSED = 7) delivered by the transport for
+    a still OPEN endpoint makes dialer_connect_cb / listener_accept_cb stop for good (the `case NNG_ECLOSED:
+    case NNG_ECANCELED: case NNG_ESTOPPED:` arms of their switches).  Replayed on the real code with
+    harness/s_life: `open 0 pull; dial 0 1; conn_done 0 !7; advance 100000; advance 100000; conn_done 0 0050`
+    → no `earm` ever again, last line `rv -1` (nothing armed).  The real transports produce these results
+    only when the endpoint is being closed, so this is a too-strong statement, not a defect. -/
+theorem never_stuck_needs_not_stopped :
+    ((run {} [(.openSock 0 "pull", []), (.dial 0 true, []), (.connDone 0 (.error 7), []), (.advance 100000, [])]).eps.map
+      fun e => (e.dialer && !e.closed && e.background && e.stopped, e.armed, e.timer, e.dPipe)) =
+      [(true, false, none, none)] ∧
+    ((run {} [(.openSock 0 "pull", []), (.listen 0, []), (.connDone 0 (.error 7), []), (.advance 100000, [])]).eps.map
+      fun e => (e.dialer, e.closed, e.stopped, e.armed, e.cool)) = [(false, false, true, false, none)] :=
+  ⟨by decide, by decide⟩
+
+/-- NOT PROVED (statement only): the C14 judge of Spec/Life.lean accepts every trace the model can
+    produce, for every op sequence and every oracle.  No counter-example in 51 000 random op sequences
+    (incl. slot re-use, close-class results on open endpoints, negative reconnect times) replayed through
+    the compiled judge; a proof needs a simulation relation between the judge's association lists and
+    the model state for each of its ~25 event handlers. -/
+def judge_accepts_model_statement : Prop :=
+  ∀ tr : List (LOp × List Nat), (judgeRun (modelTrace {} tr)).err14 = none
+
 /-! ### non-vacuity: a concrete history with a full notification sequence, a failed background
     dial and a redial read back from the trace -/
 def sampleTrace : List (LOp × List Nat) :=
@@ -98,5 +321,19 @@ def sampleTrace : List (LOp × List Nat) :=
 
 example : (run {} sampleTrace).pipes.map (·.evs) = [[.pre, .post, .rem]] := by decide
 example : (run {} sampleTrace).eps.map (fun e => (e.armed, e.timer)) = [(true, none), (true, none)] := by decide
+
+
+/-- the hypotheses of the new theorems are satisfiable: after the failed background dial the dialer's
+    timer is pending (`redial_timer_bounded`, `redial_progress`), the listener is armed, the reaped pipe is
+    off its endpoint; a dialer that owns a pipe (`dialer_owns_at_most_one_pipe`, `redial_after_pipe_loss`);
+    a listener in its cool-down (`listener_keeps_accepting`, `accept_progress`); and the judge accepts this
+    model trace -/
+example : (run {} (sampleTrace.take 7)).eps.map (fun e => (e.dialer, e.armed, e.timer, e.background, e.closed)) =
+    [(false, true, none, false, false), (true, false, some (0, 1000), true, false)] := by decide
+example : (run {} [(.openSock 0 "pull", []), (.dial 0 true, []), (.connDone 0 (.ok 80), [])]).eps.map
+    (fun e => (e.dPipe, e.armed, e.timer)) = [(some 0, false, none)] := by decide
+example : (run {} [(.openSock 0 "pull", []), (.listen 0, []), (.connDone 0 (.error 2), [])]).eps.map
+    (fun e => (e.armed, e.cool, e.stopped)) = [(false, some 100, false)] := by decide
+example : (judgeRun (modelTrace {} sampleTrace)).err14 = none := by decide
 
 end Nng.C14
